@@ -46,3 +46,45 @@ def _(c):
     c.ensures('size-pseudo-hash-or-the-named-algorithm', which)
     c.exc_ensures('unsupported-iff-unknown-to-hashlib', 'UnsupportedHash',
                   lambda s: z3.And(s.name != z3.StringVal('__size__'), z3.Not(available(s.name))))
+
+
+# hash_file: call-site model (the streaming proof of the body is a separate obligation set, see below)
+from vp import fsmodel as FS
+from vp.symex import PyRaise
+OptU = opt_sort(U)
+digest = z3.Function('py_digest', z3.StringSort(), z3.StringSort(), z3.StringSort())
+
+
+def hash_file_model(it, bound, node):
+    ctx = it.ctx
+    f = ctx.force(bound['f'])
+    names = it._norm_container(ctx.force(bound['hash_names']))
+    if not isinstance(f, FS.VFile):
+        raise Unsupported('hash_file on %r' % (f,), node)
+    it.engine.assumed.add('contract of hash.hash_file used at the call site: digests and size of the whole content, '
+                          'OSError on a read error, UnsupportedHash for a name hashlib lacks')
+    p = f.p
+    if isinstance(names, VTuple):
+        mem = lambda k: z3.Or(*[k == x.t for x in names.items]) if names.items else z3.BoolVal(False)
+        allav = z3.And(*[z3.Or(x.t == z3.StringVal('__size__'), available(x.t)) for x in names.items]) if names.items else z3.BoolVal(True)
+    else:
+        mem = lambda k: z3.Contains(names.t, z3.Unit(k))
+        allav = z3.Function('all_hashlib_available', names.t.sort(), z3.BoolSort())(names.t)
+    if not ctx.branch(allav, 'all-hashlib-names-available'):
+        raise PyRaise(VExc('UnsupportedHash', [], {}, line=getattr(node, 'lineno', None)))
+    e = FS.fs_read_err(p)
+    if not ctx.branch(e == 0, 'read-ok'):
+        FS.raise_oserror(it, 'read', e, p, node)
+    data = FS.fs_data(p)
+    k = z3.Const('k', z3.StringSort())
+    d = z3.Lambda([k], z3.If(mem(k), z3.If(k == z3.StringVal('__size__'), OptU.some(U.vint(z3.Length(data))),
+                                           OptU.some(U.vstr(digest(k, data)))), OptU.none))
+    return VCell(VMap(d, Str, Any), 'dict')
+
+
+@contract('gemato/hash.py', 'hash_file', props=['C17', 'C06'])
+def _(c):
+    c.params(f=Any, hash_names=SeqT(Str), _apparent_size=Int)
+    c.trusted = True
+    c.model = hash_file_model
+    c.note('body (streaming loop over hashlib objects) is checked by the bounded stand-in with adversarial read schedules')
